@@ -121,6 +121,17 @@ type Tree struct {
 	Sub   []Tree
 }
 
+// PKey is a map key that holds a pointer: what it points to is reachable
+// memory like any other.
+type PKey struct {
+	P *int
+	N int
+}
+
+// PKeyMap / ArrKeyMap are maps whose KEYS reference memory.
+type PKeyMap map[PKey]int
+type ArrKeyMap map[[1]*int]string
+
 // Pt is a small struct used as an element of collections.
 type Pt struct {
 	X, Y int
@@ -196,6 +207,8 @@ var baseTypes = map[string]reflect.Type{
 	"Stamp":         reflect.TypeOf(Stamp{}),
 	"Tagged":        reflect.TypeOf(Tagged{}),
 	"Tree":          reflect.TypeOf(Tree{}),
+	"PKeyMap":       reflect.TypeOf(PKeyMap(nil)),
+	"ArrKeyMap":     reflect.TypeOf(ArrKeyMap(nil)),
 	"Pt":            reflect.TypeOf(Pt{}),
 	"Rec":           reflect.TypeOf(Rec{}),
 	"EmbA":          reflect.TypeOf(EmbA{}),
